@@ -213,6 +213,19 @@ add(
     "DESIGN.md section 4, C20",
 )
 
+add(
+    "C18", "exploration",
+    "grammar-directed property-based testing (Hypothesis): meaning first, random spelling second; exhaustive "
+    "structural product; documented-invalid generator with exit-status oracle",
+    "The generator keeps the intended meaning of every rendered specification (option, restriction, sequence with "
+    "x{n}/U/I/case, name, parameters at adapter/file/global level, linked parts, file:/^file:/file$:) and compares "
+    "class and attributes of the adapters built by the real parser with it (precedence adapter > file > global, "
+    "absolute error numbers / non-N length, anchored overlap, required flags for -a vs -g and overrides); documented "
+    "invalid combinations must end in exit status 2 with an error message.",
+    "Held on everything explored after repository fix F11 (file$: with per-record parameters).",
+    "DESIGN.md section 4, C18",
+)
+
 NOT_APPLICABLE = []  # filled below for every property without a check
 
 ALL_IDS = [f"C{i:02d}" for i in range(1, 21)]
